@@ -82,6 +82,8 @@ type PipeSpec struct {
 	TimeoutMs   int      `json:"timeout_ms"`
 	Footprint   bool     `json:"footprint"`
 	HTTPTimeout int      `json:"http_timeout"` // --http-timeout in seconds (0 = none)
+	SlowPoint   string   `json:"slow_point"`   // every event at this hook point takes SlowMs longer (a slow disk, a slow queue: any schedule is allowed)
+	SlowMs      int      `json:"slow_ms"`
 	DiskLowMs   int      `json:"disk_low_ms"`  // after this many ms the job volume counts as full (--min-space-required raised): the real disk watcher pauses the pipeline at its next tick
 }
 
@@ -357,6 +359,9 @@ func runPipeChild(specPath string) {
 		}
 		if sp.StopAt != nil && sp.StopAt.Point == point && sp.StopAt.K == n {
 			doStop()
+		}
+		if sp.SlowPoint != "" && sp.SlowPoint == point {
+			time.Sleep(time.Duration(sp.SlowMs) * time.Millisecond)
 		}
 		// seeded schedule perturbation
 		if sp.SchedSeed != 0 {
